@@ -24,6 +24,12 @@ func world(entry string, fam, nT, nV, conv, form, sv int64, mode ...int64) Shard
 	if m&16 != 0 {
 		extra += ", all options attached as construction defaults"
 	}
+	if m&32 != 0 {
+		extra += ", option spelling of every value symbolic (NamedSubtype / Named / Typed / Typed after a nil / TypedSubtype)"
+	}
+	if m&64 != 0 {
+		extra += ", target built with default values under its own parameters' keys (Call arguments must win)"
+	}
 	if fam >= 100 {
 		skel := []string{"skeleton 0: multi-input converter entered through one input, typed inputs with symbolic subtypes", "skeleton 1: diamond of two multi-input converters", "skeleton 2: two-output converter feeding two parameters, symbolic names/subtypes",
 			"skeleton 3: provider competing with direct values, symbolic names/subtypes", "skeleton 4: chain of three with a bidirectional pair", "skeleton 5: two named parameters converted from competing named inputs with subtypes", "skeleton 6: deep diamond (5 converters, named+subtyped intermediate, interface target)", "skeleton 7: two supplied converters of identical Go type and a hopeless named parameter", "skeleton 8: same-name conversion adding a subtype fed by another converter (negative-weight loop under the name discount)", "skeleton 9: named values of one name and type with symbolic subtypes around a multi-input converter and a provider"}
@@ -98,8 +104,10 @@ func registerResolver() {
 		ID: "C03", Pkg: "argmapper", SchedDependent: true,
 		Quick: []Shard{
 			world("HarnessC03", 1, 1, 1, 0, 1, 100), world("HarnessC03", 3, 1, 1, 11, 1, 100), world("HarnessC03", 1, 2, 0, 11, 0, 0), world("HarnessC03", 2, 1, 1, 11, 1, 100), world("HarnessC03", 0, 1, 0, 11, 9, 0), world("HarnessC03", 3, 1, 0, 91, 1, 100), world("HarnessC03", 1, 1, 1, 91, 1, 101), world("HarnessC03", 103, 0, 0, 0, 1, 100), world("HarnessC03", 1, 1, 1, 91, 1, 100, 2), world("HarnessC03", 0, 1, 1, 91, 9, 100, 2),
+			world("HarnessC03", 2, 1, 1, 11, 1, 0, 32), world("HarnessC03", 1, 2, 0, 11, 1, 0, 96), world("HarnessC03", 3, 1, 0, 11, 1, 0, 96), world("HarnessC03", 0, 2, 1, 0, 1, 0, 32), world("HarnessC03", 3, 2, 0, 0, 1, 0, 96),
 		},
 		Thorough: []Shard{
+			world("HarnessC03", 3, 1, 1, 11, 1, 0, 32), world("HarnessC03", 3, 2, 0, 11, 1, 0, 64), world("HarnessC03", 2, 1, 1, 11, 1, 0, 32), world("HarnessC03", 1, 2, 0, 11, 1, 0, 96), world("HarnessC03", 3, 1, 0, 11, 1, 0, 96), world("HarnessC03", 0, 2, 1, 0, 1, 0, 32), world("HarnessC03", 3, 2, 0, 0, 1, 0, 96),
 			world("HarnessC03", 1, 1, 1, 0, 1, 100), world("HarnessC03", 3, 1, 1, 11, 1, 100), world("HarnessC03", 1, 2, 0, 11, 0, 0), world("HarnessC03", 2, 1, 1, 11, 1, 100), world("HarnessC03", 0, 1, 0, 11, 9, 0), world("HarnessC03", 3, 1, 0, 91, 1, 100), world("HarnessC03", 1, 1, 1, 91, 1, 101), world("HarnessC03", 103, 0, 0, 0, 1, 100), world("HarnessC03", 1, 1, 2, 0, 1, 100), world("HarnessC03", 3, 1, 1, 11, 3, 101), world("HarnessC03", 1, 2, 0, 11, 0, 101), world("HarnessC03", 0, 1, 1, 11, 9, 0), world("HarnessC03", 3, 1, 0, 1111, 1, 0), world("HarnessC03", 3, 2, 1, 11, 1, 1), world("HarnessC03", 3, 1, 1, 91, 1, 101), world("HarnessC03", 2, 1, 1, 91, 1, 102), world("HarnessC03", 7, 1, 1, 1191, 1, 0), world("HarnessC03", 102, 0, 0, 0, 1, 100),
 		},
 		Covers:   []string{"C03.call-returned", "C03.with-distractor-converter"},
@@ -326,19 +334,19 @@ func registerResolver() {
 		CVQuick:  2, CVThor: 4,
 	})
 	c12 := func(op, once int64) Shard {
-		ops := []string{"Call", "Convert", "Redefine", "Call twice + Convert", "Redefine + call of the redefined function"}
-		return sh("HarnessC12", fmt.Sprintf("operation %s on shared target/converters/options (symbolic option mix), run-once converter=%d", ops[op], once), 0, op, once)
+		ops := []string{"Call", "Convert", "Redefine", "Call twice + Convert", "Redefine + call of the redefined function", "call of a shared function that an earlier Redefine returned"}
+		return sh("HarnessC12", fmt.Sprintf("operation %s, together with a second symbolically chosen operation (two goroutines natively), on shared target/converters/options/redefined function (symbolic option mix, target symbolically failing), run-once converter=%d", ops[op], once), 0, op, once)
 	}
 	register(&PropSpec{
 		ID: "C12", Pkg: "argmapper", RaceReplay: true,
-		Quick: []Shard{c12(0, 0), c12(1, 0), c12(2, 0), c12(3, 0), c12(4, 0), c12(0, 1), c12(3, 1),
+		Quick: []Shard{c12(0, 0), c12(1, 0), c12(2, 0), c12(3, 0), c12(4, 0), c12(0, 1), c12(3, 1), c12(5, 0), c12(5, 1),
 			sh("HarnessC12Par", "outcome clause: two goroutines, shared run-once converter (struct form), interleavings with <=3 context switches", 0, 1, 3), sh("HarnessC12Par", "outcome clause: two goroutines, shared run-once converter (*struct form), <=3 context switches", 0, 2, 3)},
-		Thorough: []Shard{c12(0, 0), c12(1, 0), c12(2, 0), c12(3, 0), c12(4, 0), c12(0, 1), c12(1, 1), c12(2, 1), c12(3, 1), c12(4, 1),
+		Thorough: []Shard{c12(0, 0), c12(1, 0), c12(2, 0), c12(3, 0), c12(4, 0), c12(0, 1), c12(1, 1), c12(2, 1), c12(3, 1), c12(4, 1), c12(5, 0), c12(5, 1),
 			sh("HarnessC12Par", "outcome clause: two goroutines, shared run-once converter (struct form), <=6 context switches", 0, 1, 6), sh("HarnessC12Par", "outcome clause: shared run-once converter (*struct form), <=6 context switches", 0, 2, 6), sh("HarnessC12Par", "outcome clause: shared run-once converter (built form), <=5 context switches", 0, 3, 5)},
 		Covers:   []string{"C12.operation-checked", "C12.par-checked"},
 		Bounds:   []string{"shared objects: a struct-form target with default options, two converters (one optionally run-once), an option slice whose composition (Named, NamedSubtype, TypedSubtype, ConverterFunc/Converter, ConverterGen, filters) is symbolic; operations Call, Convert, Redefine, repeated use, call of a redefined function", "write set: every interpreter store (Store, map update/delete, append into spare capacity, copy, reflect.Value.Set) to a cell reachable from the shared objects or from package-level variables; stores made while a sync.Mutex is held are admitted"},
 		Outside:  []string{"functions assembled with BuildFunc (excluded by the property)", "user callbacks", "the Go memory model below the granularity of interpreter loads and stores", "outcome equivalence under interleaving is implied only when the write set is empty or lock-protected"},
-		Assume:   append(common, "non-interference reduction: no unguarded write to pre-existing state => race freedom and sequential outcomes under every interleaving"),
+		Assume:   append(common, "lock-discipline reduction (Eraser lockset): no store to pre-existing shared state without a lock, and no location stored under a lock and accessed under a lockset sharing no lock with it => race freedom under every interleaving"),
 		Anchored: []string{"(*github.com/hashicorp/go-argmapper.Func).callDirect", "github.com/hashicorp/go-argmapper.NamedSubtype", "github.com/hashicorp/go-argmapper.newArgBuilder", "(*github.com/hashicorp/go-argmapper.Func).argBuilder"},
 		CVQuick:  0, CVThor: 0,
 	})
